@@ -136,7 +136,8 @@ impl Cache for MemoryStore {
                     }
                 }
                 Entry::Vacant(entry) => {
-                    record.header.cas += 1;
+                    // cas + 1, but never 0 ("no cas") and no overflow for u64::MAX
+                    record.header.cas = record.header.cas.checked_add(1).unwrap_or(1);
                     record.header.timestamp = self.timer.timestamp();
                     let cas = record.header.cas;
                     entry.insert(record);
